@@ -49,7 +49,7 @@ async fn run_world(wi: u64, mut rng: Rng) -> anyhow::Result<Summary> {
     }
     let self_ids: Vec<HashSet<String>> = (0..n).map(|i| [names[i].clone(), nodes[i].tid.clone(), hex::encode(dht_key_of(&names[i]))].into_iter().collect()).collect();
     let tid_index: HashMap<String, usize> = nodes.iter().enumerate().map(|(i, x)| (x.tid.clone(), i)).collect();
-    let mut cid = 0u64;
+    let mut cid = 800000u64 + wi * 1000;   // disjoint from the case ids of the main C02 harness
     for _ in 0..6 {
         let o = rng.below(n as u64) as usize;
         let key: [u8; 32] = match rng.below(4) { 0 => dht_key_of(&nodes[rng.below(n as u64) as usize].tid), 1 => [0u8; 32], _ => { let b = rng.bytes(32); let mut k = [0u8; 32]; k.copy_from_slice(&b); k } };
